@@ -204,8 +204,23 @@ func canon(out string) string {
 		sort.Strings(lines[i:j])
 		i = j
 	}
+	// a printed or thrown scope (an imported package, a module) formats as "Has parent" / "No parent"
+	// followed by its symbols in map order: the run of `name = value` lines is sorted
+	for i := 0; i < len(lines); i++ {
+		if !strings.HasSuffix(lines[i], "Has parent") && !strings.HasSuffix(lines[i], "No parent") {
+			continue
+		}
+		j := i + 1
+		for j < len(lines) && symLine.MatchString(lines[j]) {
+			j++
+		}
+		sort.Strings(lines[i+1 : j])
+		i = j - 1
+	}
 	return strings.Join(lines, "\n")
 }
+
+var symLine = regexp.MustCompile(`^[A-Za-z_][A-Za-z0-9_]* = `)
 
 type inproc struct {
 	out     string
